@@ -34,6 +34,7 @@ theorem exec_inactive (p : Prog) (s : St) (ha : s.active = none) (hf : s.forced 
         · rw [write_inactive _ _ hb]; simpa using h)
     (by intro cfg args k0 t o h; rw [afterInput_inactive _ _ _ _ h.1]; exact h)
     (by intro a n t o h; rw [afterOutput_inactive _ _ _ h.1]; exact h)
+    (by intro t b h; rw [doSetEnabled_inactive b h.1]; simpa using h)
     p s ⟨ha, hf, rfl⟩
   exact this
 
@@ -51,8 +52,15 @@ theorem exec_passthrough (p : Prog) (s : St) (ha : s.active = none) (hp : s.play
       simp [shouldIntercept, inRecordingMode, inPlaybackMode, h.1, h.2.1] at hi)
     (by intro cfg args k0 t o h; rw [afterInput_inactive _ _ _ _ h.1]; exact h)
     (by intro a n t o h; rw [afterOutput_inactive _ _ _ h.1]; exact h)
+    (by intro t b h; rw [doSetEnabled_inactive b h.1]; simpa using h)
     p s ⟨ha, hp, rfl, rfl⟩
   exact ⟨this.2.2.1, this.2.2.2⟩
+
+/-- flipping the switch of an idle recorder changes the switch and nothing else -/
+theorem idle_doSetEnabled {s : St} (b : Bool) (h : s.Idle) : (doSetEnabled s b).Idle := by
+  obtain ⟨h1, h2, h3, h4, h5, h6⟩ := h
+  rw [doSetEnabled_inactive b h1]
+  exact ⟨h1, h2, h3, h4, h5, h6⟩
 
 theorem Idle.mk' {s : St} (h1 : s.active = none) (h2 : s.forced = false) (h3 : s.counter = []) (h4 : s.playback = none)
     (h5 : s.playbackOutputs = []) (h6 : s.inInt = false) : s.Idle := ⟨h1, h2, h3, h4, h5, h6⟩
@@ -91,14 +99,14 @@ theorem execOperationFunc_fields (s : St) (p : Prog) :
 (one `get`), the stored recordings are untouched, and the recorder is idle afterwards. -/
 theorem runPlay_spec (ao : AliasOracle) (cfg : OpCfg) (s : St) (id : Nat) (p : Prog) (h : s.Idle) :
     (runPlay ao cfg s id p).1.Idle ∧ (runPlay ao cfg s id p).1.log = s.log ++ [.get id] ∧
-    (runPlay ao cfg s id p).1.store = s.store ∧ (runPlay ao cfg s id p).1.enabled = s.enabled := by
+    (runPlay ao cfg s id p).1.store = s.store ∧ (p.NoSwitch → (runPlay ao cfg s id p).1.enabled = s.enabled) := by
   obtain ⟨h1, h2, h3, h4, h5, h6⟩ := h
   unfold runPlay
   cases hf : fetch s.store id with
   | none =>
     simp only
     exact ⟨⟨by simpa using h1, by simpa using h2, by simpa using h3, by simpa using h4, by simpa using h5,
-      by simpa using h6⟩, by simp [addLog], by simp, by simp⟩
+      by simpa using h6⟩, by simp [addLog], by simp, fun _ => by simp⟩
   | some r =>
     simp only
     have ht := tick_fields (addLog s (.get id))
@@ -129,20 +137,21 @@ theorem runPlay_spec (ao : AliasOracle) (cfg : OpCfg) (s : St) (id : Nat) (p : P
       rw [u7, e2, hin.2.2]; simpa [addLog] using t7
     have hstore : sc.store = s.store := by
       rw [u9, e4, hfr.2.1]; simpa using t9
-    have hen : sc.enabled = s.enabled := by
-      rw [u10, e8, hfr.1]; simpa using t10
+    have hen : p.NoSwitch → sc.enabled = s.enabled := by
+      intro hns
+      rw [u10, e8, exec_enabled_noSwitch p hns]; simpa using t10
     have hidle : St.Idle { sc with playback := none, playbackOutputs := [], counter := [] } := by
       refine ⟨?_, ?_, rfl, rfl, rfl, ?_⟩
       · simp only; rw [u1]; exact e7 hin.1
       · simp only; rw [u2, e1]; exact hin.2.1
       · simp only; rw [u6, e3, hii]; simpa using t6.trans (by simpa using h6)
     cases e with
-    | interrupt i => exact ⟨hidle, by simpa using hlog, by simpa using hstore, by simpa using hen⟩
+    | interrupt i => exact ⟨hidle, by simpa using hlog, by simpa using hstore, fun hns => by simpa using hen hns⟩
     | out o =>
       cases o with
-      | ret v => exact ⟨hidle, by simpa using hlog, by simpa using hstore, by simpa using hen⟩
+      | ret v => exact ⟨hidle, by simpa using hlog, by simpa using hstore, fun hns => by simpa using hen hns⟩
       | exc t =>
         simp only
-        split <;> exact ⟨hidle, by simpa using hlog, by simpa using hstore, by simpa using hen⟩
+        split <;> exact ⟨hidle, by simpa using hlog, by simpa using hstore, fun hns => by simpa using hen hns⟩
 
 end PlaybackModel.Recorder
